@@ -94,9 +94,18 @@ def objective_value(spec, sums):
     raise ValueError(spec)
 
 
-def optimum_value(spec, items, k):
+@lru_cache(maxsize=20000)
+def opt_partition_dp(items, k):
+    """opt_partition for inputs with many items over a tiny alphabet: the layer-by-layer DP over sets of sorted sum vectors
+    (the second implementation, cross-validated against the enumeration by ./check --selftest) - polynomial when the
+    number of distinct reachable sum vectors is small."""
+    return opt_partition_alt(items, k)
+
+
+def optimum_value(spec, items, k, dp=False):
     """Optimal value (smaller is better) of objective `spec` over all k-partitions of items."""
-    o = opt_partition(tuple(sorted(items, reverse=True)), k)
+    key = tuple(sorted(items, reverse=True))
+    o = opt_partition_dp(key, k) if dp else opt_partition(key, k)
     if spec == "MinimizeDifference": return o["diff"]
     if spec == "MinimizeLargestSum": return o["largest"]
     if spec == "MaximizeSmallestSum": return -o["smallest"]
